@@ -25,3 +25,13 @@ CLAIMED["C16"] = (
     "and BIN/HEX/S-record save/load (bincopy), are bounded checks only. One recorded known finding (empty child inside a sibling).",
     "Trusted: A-enc, A-smt; align/align_block/BinaryPattern.get_block through their own verified contracts (C20). 'rand' pattern excluded.",
     "DESIGN.md 7 C16")
+CLAIMED["C11"] = (
+    "RegsBitField.get_value/set_value (read-back, neighbours untouched as 'all bits below offset and at/above offset+width unchanged', "
+    "values that do not fit rejected, register stays in range), Register.get_value/set_value for plain, byte-reversed and grouped "
+    "(normal/reversed sub-register order) registers against one abstract bit-vector view, and the frame obligation 'get_registers does "
+    "not change the object' are discharged for all values. Layouts are enumerated: quick = 44 boundary-rich (offset,width) pairs in a "
+    "32-bit register + boundary pairs at 8/16/64 bits, thorough = all 528 pairs; groups of 2/3 x 32 bits; reversed registers 8..64 bits. "
+    "Config/YAML/string paths and export/parse of register files are not covered deductively here (see C12).",
+    "Trusted: A-enc, A-smt, A-struct (from_bytes(to_bytes(v)) = v positional-notation identities), layouts outside the enumerated set "
+    "(symbolic offset/width arithmetic is not decided by z3: stated in DESIGN 7 C11).",
+    "DESIGN.md 7 C11")
